@@ -906,13 +906,21 @@ def where(c, a, b):
     return a if c else b
 
 
+def _scalar(x):
+    if isinstance(x, np.ndarray) and x.size == 1:
+        return x.reshape(-1)[0]
+    return x
+
+
 def smin(a, b):
+    a, b = _scalar(a), _scalar(b)
     if not is_sym(a) and not is_sym(b):
         return min(a, b)
     return where(_le(a, b), a, b)
 
 
 def smax(a, b):
+    a, b = _scalar(a), _scalar(b)
     if not is_sym(a) and not is_sym(b):
         return max(a, b)
     return where(_le(b, a), a, b)
